@@ -242,8 +242,10 @@ PROPS = {
         level='other', bounded=['c18.py'],
         lemmas=['M1 simulation: every TexArgs method refines the corresponding list operation on the view `items`, so every '
                 'finite history does (induction on length; mechanised: lemmas/Lemmas.lean M1_simulation)'],
-        trusted_base=['the bookkeeping list TexArgs.all is not modelled (opaque; its lookups are assumed to find their '
-                      'argument): exceptions raised through it are covered by the bounded exploration only',
+        trusted_base=['the bookkeeping list TexArgs.all is modelled only as far as its lookups can raise: it is ASSUMED (class '
+                      'invariant, not re-proved: it needs multiset counting) to hold every element the argument list had at '
+                      'function entry, plus what the call has added so far; a lookup of anything else raises ValueError (this is '
+                      'the obligation that fails for D24); its order and whitespace entries are not modelled',
                       'list.__init__/insert/remove/pop/reverse/clear/__getitem__ of the base class follow the language reference'],
         assumptions=['TexArgs.__contains__ is not verified (bounded only); construction from another TexArgs reads it as its item list',
                      'coercion: a string is accepted iff it is blank or delimited like a group; TexGroup.parse is executed in place'],
